@@ -276,3 +276,33 @@ PROPS["C06"] = {
          "covers": ["redirect-limit-reached", "redirect-followed", "asset-depth-limit", "asset-added", "outlink-queued", "outlink-domains-crawl"]},
     ],
 }
+
+PRE = "internal/pkg/preprocessor"
+ADA = "github.com/ada-url/goada."
+URL_MODELS = dict(DEFAULT_MODELS)
+URL_MODELS.update({
+    ADA + "New": VM + "AdaNew", ADA + "NewWithBase": VM + "AdaNewWithBase",
+    "(*" + ADA + "Url).SetHash": VM + "AdaSetHash", "(*" + ADA + "Url).Protocol": VM + "AdaProtocol", "(*" + ADA + "Url).Hostname": VM + "AdaHostname",
+    "(*" + ADA + "Url).Href": VM + "AdaHref", "(*" + ADA + "Url).Free": VM + "AdaFree",
+    "net/http.NewRequest": VM + "HTTPNewRequest",
+    "(github.com/philippgille/gokv/leveldb.Store).Get": VM + "LevelGet", "(github.com/philippgille/gokv/leveldb.Store).Set": VM + "LevelSet",
+    "(github.com/philippgille/gokv/leveldb.Store).Close": VM + "LevelClose",
+    "github.com/philippgille/gokv/leveldb.NewStore": VM + "LevelNewStore",
+    Z + "/pkg/models.URLToString": VM + "URLToStringQ",
+})
+PROPS["C05"] = {
+    "level": "model_checking",
+    "explanation": "the real preprocess() (normalisation glue, include/exclude filters, child removal, de-duplication, local seencheck, request construction) is executed from SSA for a seed, an asset child and a redirect target "
+                   "whose URL is drawn from a table of URL shapes (good, built-in excluded host, non-http scheme, localhost, 127.0.0.1, dotless host, exclude-string, quoted, fragment, relative) under all 16 include/exclude filter combinations; "
+                   "an independent scope predicate written from the statement decides which nodes may carry a request.",
+    "bounds": "10 URL shapes x 16 filter combinations x {seed, 1-2 asset children, redirect target}; exclusion-file regexes not used; empty seen-store",
+    "outside": "ada-url's parsing itself (modelled by a per-input outcome table; the native replay runs the real ada on the same inputs); regex exclusions; GenerateCrawlConfig appending the two built-in hosts (the harness builds the list it produces)",
+    "assumptions": COMMON_ASSUME + ["goada.New/NewWithBase return, per input, the protocol/hostname/href recorded in the harness table; Href() has no fragment iff SetHash(\"\") was called",
+                                    "http.NewRequest returns a request for a parsable URL; leveldb store = map"],
+    "models": URL_MODELS,
+    "stub_pkgs": DEFAULT_STUBS + [STATS],
+    "harnesses": [
+        {"pkg": PRE, "func": "VerifH_C05_children", "opts": {"map_order_all": False}, "covers": ["out-of-scope-child", "in-scope-child"]},
+        {"pkg": PRE, "func": "VerifH_C05_seed", "opts": {"map_order_all": False}, "covers": ["out-of-scope-seed", "in-scope-seed", "seencheck-disabled"]},
+    ],
+}
